@@ -260,6 +260,21 @@ func recC01(c *ctx) {
 			}
 		}
 	}
+	ropts := make([]vopts, len(opts))
+	for i := range opts {
+		ropts[len(opts)-1-i] = opts[i]
+	}
+	// ---- (3b') canonical small-order keys (all eight) and small-order R under the option vectors in both orders
+	for tt := 0; tt < 8; tt++ {
+		for _, oo := range [][]vopts{opts, ropts} {
+			f := fs[r.Intn(3)]
+			msg, ctxb := mkmsg(f)
+			emit(mkSide(r, 0, big.NewInt(0), tt), mkSide(r, 0, rnd(), r.Intn(8)), big.NewInt(0), f, ctxb, msg, 0, 0, oo)
+			msg, ctxb = mkmsg(f)
+			a := rnd()
+			emit(mkSide(r, 0, a, r.Intn(8)), mkSide(r, 0, big.NewInt(0), tt), a, f, ctxb, msg, 0, 0, oo)
+		}
+	}
 	// ---- (3b) the COMPLETE family of non-canonical encodings of small-order points (y + p for y < 19, sign bit set on x = 0,
 	// both together), each as R and as A, under every option vector: a rule keyed on the bytes must know all of them
 	for tt := 0; tt < 8; tt++ {
@@ -271,6 +286,9 @@ func recC01(c *ctx) {
 			emit(mkSide(r, 0, a, r.Intn(8)), ncSide, a, f, ctxb, msg, 0, 0, opts)
 			msg, ctxb = mkmsg(f)
 			emit(ncSide, mkSide(r, 0, rr, r.Intn(8)), big.NewInt(0), f, ctxb, msg, 0, 0, opts)
+			// the same request under the option vectors in the OPPOSITE order: the decision for (request, options) must not
+			// depend on what was verified before (anything remembered about a key or a signature across calls)
+			emit(ncSide, mkSide(r, 0, rr, r.Intn(8)), big.NewInt(0), f, ctxb, msg, 0, 0, ropts)
 		}
 	}
 	// ---- (3a) length sweep: honest requests whose context and message lengths walk through every total 0..330 (ctx) and
